@@ -43,6 +43,7 @@ func TestC13(t *testing.T) {
 	run.Require("waitcatchup/returned", 10)
 	run.Require("drain/completed", 50)
 	run.Require("call/return/cancelish", 5)
+	run.Require("call/sample-timeout-fired/cancel-looking-error", 3)
 	run.Assume("lower-bound timing only: both clock reads of the back-off check err on the safe side, load can only lengthen the measured gap")
 	run.Assume("'eventually' is judged as: faults stop, polls keep arriving, the drain completes or a stable state proves it never will")
 }
